@@ -67,14 +67,24 @@ def run_text_case(ref, wd, tmpd, canary, r, res, v, entry, rnd, tid):
     before_w = snapshot(wd)
     # the library's own naming convention for an actual result kept in the temporary directory: actual-<reference name>
     own_actual = os.path.join(tmpd, 'actual-ref_c15.txt') if (entry == 'file' and tid % 4 == 1) else None
-    got, msg = tl.call_entry(ref, entry, la, le, kw, wd, nl_a, True, tag='c15', actual_path=own_actual)
+    first_pair = None
+    if entry == 'files':
+        # a list of two pairs: on the first one an exclusion of this very option set takes effect (and it passes)
+        m_ = tl.TOKMAPS[v]
+        if o['isub']:
+            first_pair = ([m_['a']], [m_['I'] + m_['b']])
+        elif o['pats']:
+            first_pair = ([m_['a'] + m_['1']], [m_['a'] + m_['2']])
+        elif o['rem']:
+            first_pair = ([m_['R'] + m_['a'], m_['b']], [m_['b']])
+    got, msg = tl.call_entry(ref, entry, la, le, kw, wd, nl_a, True, tag='c15', actual_path=own_actual, first_pair=first_pair)
     after_tmp = snapshot(tmpd)
     if own_actual:
         after_tmp.pop(os.path.relpath(own_actual, tmpd), None)
     after_c = snapshot(canary)
     after_w = snapshot(wd)
     # files created/changed in the work dir other than the ones the harness wrote itself
-    own = {'ref_c15.txt', 'act_c15.txt'}
+    own = {'ref_c15.txt', 'act_c15.txt', 'ref2_c15.txt', 'act2_c15.txt'}
     tmprel = os.path.relpath(tmpd, wd)
     outside = [p for p in after_w if not p.startswith(tmprel + os.sep) and p not in own and after_w[p] != before_w.get(p)]
     outside += [p for p in after_c if after_c[p] != before_c.get(p)]
@@ -105,7 +115,10 @@ def run_text_case(ref, wd, tmpd, canary, r, res, v, entry, rnd, tid):
                 if read_lines(a_path).splitlines() != la:
                     ev['actual_faithful'] = False
                     ev['actual_file_lines'] = read_lines(a_path).splitlines()
-            if kind in ('raw', '') and entry == 'file':
+            if 'act2_c15' in a_path or 'ref2_c15' in e_path or 'actual-ref2_c15' in a_path:
+                ev['first_pair_reported'] = True        # the first pair passes: nothing about it belongs in the message
+                continue
+            if kind in ('raw', '') and entry in ('file', 'files'):
                 given = own_actual or os.path.join(wd, 'act_c15.txt')
                 if os.path.abspath(a_path) != os.path.abspath(given):
                     ev['actual_faithful'] = False
@@ -173,10 +186,13 @@ def run(chk):
     ncases = len(cases) if thorough else 3500
     # always include the cases whose actual has no lines (after removals)
     empties = [c for c in cases[ncases:] if not [l for l in c[0]['A'] if not (c[1]['o']['rem'] and 'R' in l)]]
+    # failing pairs on which no exclusion takes effect, as the SECOND pair of a list of files whose first pair does use one
+    plain_fail = [c for c in cases[ncases:] if c[1]['rdem'] and not c[1]['effect'] and (c[1]['o']['isub'] or c[1]['o']['pats'] or c[1]['o']['rem'])]
+    second = set(id(c[1]) for c in (plain_fail if thorough else rnd.sample(plain_fail, min(300, len(plain_fail)))))
     tid = 0
-    for r, res in cases[:ncases] + empties:
+    for r, res in cases[:ncases] + empties + [c for c in plain_fail if id(c[1]) in second]:
         v = rnd.randrange(3)
-        entry = rnd.choice(['string', 'string', 'file'])
+        entry = 'files' if id(res) in second else rnd.choice(['string', 'string', 'file', 'files'])
         late = tid % 6 == 5
         late_used += int(late)
         ev, msg = run_text_case(ref_late if late else ref, wd, tmpd_late if late else tmpd, canary, r, res, v, entry, rnd, tid)
